@@ -21,6 +21,7 @@ fn main() {
             checks::run(&args[2], tier)
         }
         "replay" if args.len() >= 4 => checks::replay(&args[2], &args[3]),
+        "fuzz-decode" if args.len() >= 4 => bourse_verif::decode::decode_main(&args[2], &args[3]),
         "oracle-server" => bourse_verif::oracle::server_main(),
         "c09-child" if args.len() >= 3 => checks::c09::child_main(args[2] == "1"),
         _ => usage(),
